@@ -33,14 +33,25 @@ type Host struct {
 	Rows   map[[2]string]bool
 	VerTbl bool
 	VdTbl  bool
+	// round 7: the engine ver was created with (Replicated*: its rows are shared by the replicas of one shard;
+	// otherwise they stay on this host)
+	VerRepl bool
 }
 
 // DB is the state of the fake cluster (Hosts[0] = the server the process is connected to; it receives every
 // statement, the others only what is sent ON CLUSTER); it survives "process restarts".  Vers is the content
 // of table ver of the connected host (INSERT INTO ver has no ON CLUSTER; ver_dist reads it).
+//
+// Round 7: a start may reach the cluster through any host (Conn.at).  INSERT INTO ver (no ON CLUSTER) writes the LOCAL
+// table of the connected host: VersAt[store of that host]; the store of a host is its shard when ver is a Replicated
+// table (rows shared by the replicas of the shard) and the host itself otherwise (a plain table; such hosts are taken
+// to be one shard each).  SELECT .. FROM ver reads that store only, SELECT .. FROM ver_dist (Distributed over the
+// cluster) reads every shard.  Vers stays the cluster-wide maximum (what ver_dist answers).
 type DB struct {
 	Hosts []*Host
 	Vers  map[int64]uint64
+	Shard  []int // shard of each host (missing: host i is shard i)
+	VersAt map[string]map[int64]uint64
 	// databases created by the bootstrap (tcp.go: CREATE DATABASE IF NOT EXISTS), on every host at once
 	Exists map[string]bool
 }
@@ -51,7 +62,7 @@ func NewDB(nhosts int) *DB {
 	if nhosts < 1 {
 		nhosts = 1
 	}
-	d := &DB{Vers: map[int64]uint64{}, Exists: map[string]bool{}}
+	d := &DB{Vers: map[int64]uint64{}, Exists: map[string]bool{}, VersAt: map[string]map[int64]uint64{}}
 	for i := 0; i < nhosts; i++ {
 		d.Hosts = append(d.Hosts, newHost())
 	}
@@ -69,14 +80,21 @@ func (h *Host) clone() *Host {
 	for k := range h.Rows {
 		n.Rows[k] = true
 	}
-	n.VerTbl, n.VdTbl = h.VerTbl, h.VdTbl
+	n.VerTbl, n.VdTbl, n.VerRepl = h.VerTbl, h.VdTbl, h.VerRepl
 	return n
 }
 
 func (d *DB) Clone() *DB {
-	n := &DB{Vers: map[int64]uint64{}, Exists: map[string]bool{}}
+	n := &DB{Vers: map[int64]uint64{}, Exists: map[string]bool{}, VersAt: map[string]map[int64]uint64{}}
 	for _, h := range d.Hosts {
 		n.Hosts = append(n.Hosts, h.clone())
+	}
+	n.Shard = append([]int(nil), d.Shard...)
+	for st, m := range d.VersAt {
+		n.VersAt[st] = map[int64]uint64{}
+		for k, v := range m {
+			n.VersAt[st][k] = v
+		}
 	}
 	for k, v := range d.Exists {
 		n.Exists[k] = v
@@ -85,6 +103,58 @@ func (d *DB) Clone() *DB {
 		n.Vers[k] = v
 	}
 	return n
+}
+
+// store names the place the rows of the local table ver of host i live in
+func (d *DB) store(i int) string {
+	if i < len(d.Hosts) && d.Hosts[i].VerRepl {
+		sh := i
+		if i < len(d.Shard) {
+			sh = d.Shard[i]
+		}
+		return fmt.Sprintf("shard%d", sh)
+	}
+	return fmt.Sprintf("host%d", i)
+}
+
+func (d *DB) insertVer(at int, k int64, v uint64) {
+	if d.VersAt == nil {
+		d.VersAt = map[string]map[int64]uint64{}
+	}
+	st := d.store(at)
+	if d.VersAt[st] == nil {
+		d.VersAt[st] = map[int64]uint64{}
+	}
+	if v > d.VersAt[st][k] {
+		d.VersAt[st][k] = v
+	}
+	if v > d.Vers[k] {
+		d.Vers[k] = v
+	}
+}
+
+// readVer: max(ver) of stream k as the connected host `at` sees it in its local table or through ver_dist
+func (d *DB) readVer(at int, k int64, dist bool) uint64 {
+	if !dist {
+		return d.VersAt[d.store(at)][k]
+	}
+	var v uint64
+	for i := range d.Hosts {
+		if x := d.VersAt[d.store(i)][k]; x > v {
+			v = x
+		}
+	}
+	return v
+}
+
+// hostsFrom: the hosts as a start connected to host `at` sees them (the connected one first, hosts 0 and at exchanged)
+func (d *DB) hostsFrom(at int) []*Host {
+	if at <= 0 || at >= len(d.Hosts) {
+		return d.Hosts
+	}
+	hs := append([]*Host(nil), d.Hosts...)
+	hs[0], hs[at] = hs[at], hs[0]
+	return hs
 }
 
 func (d *DB) allHave(f func(*Host) bool) bool {
@@ -314,6 +384,8 @@ type Conn struct {
 	// two concurrent starters (conc.go): every call waits for the scheduler, which also says how it ends
 	gate *gate
 	who  int
+	// round 7: index of the host this start is connected to
+	at int
 }
 
 var errInjected = errors.New("fake clickhouse: injected failure")
@@ -350,9 +422,9 @@ func (c *Conn) call(ev Event, cluster bool, whole bool, eff func(h *Host) error)
 		c.Log = append(c.Log, ev)
 		return ferr
 	}
-	targets := c.db.Hosts[:1]
+	targets := c.db.hostsFrom(c.at)[:1]
 	if cluster {
-		targets = c.db.Hosts
+		targets = c.db.hostsFrom(c.at)
 	}
 	rejected := false
 	for j, h := range targets {
@@ -401,9 +473,7 @@ func (c *Conn) Exec(_ context.Context, query string, args ...any) error {
 				if !h.VerTbl {
 					return errSem
 				}
-				if v > c.db.Vers[k] {
-					c.db.Vers[k] = v
-				}
+				c.db.insertVer(c.at, k, v)
 				return nil
 			})
 		}
@@ -415,7 +485,13 @@ func (c *Conn) Exec(_ context.Context, query string, args ...any) error {
 	oc := reHasOnCluster.MatchString(query)
 	if st.C == "CreateTable" && st.Ine && (st.Name == "ver" || st.Name == "ver_dist") {
 		if st.Name == "ver" {
-			return c.call(Event{T: "cv"}, oc, true, func(h *Host) error { h.VerTbl = true; return nil })
+			return c.call(Event{T: "cv"}, oc, true, func(h *Host) error {
+				if !h.VerTbl {
+					h.VerRepl = st.Repl
+				}
+				h.VerTbl = true
+				return nil
+			})
 		}
 		return c.call(Event{T: "cvd"}, oc, true, func(h *Host) error { h.VdTbl = true; return nil })
 	}
@@ -443,7 +519,7 @@ func (c *Conn) Query(_ context.Context, query string, args ...any) (driver.Rows,
 				if !c.db.allHave(func(x *Host) bool { return x.VerTbl }) || (tbl == "ver_dist" && !h.VdTbl) {
 					return errSem
 				}
-				v = c.db.Vers[k]
+				v = c.db.readVer(c.at, k, tbl == "ver_dist")
 				return nil
 			})
 			if err != nil {
@@ -455,7 +531,7 @@ func (c *Conn) Query(_ context.Context, query string, args ...any) (driver.Rows,
 	}
 	if q == "SHOW TABLES" { // Cleanup's helper (unused while its dependency table is empty); harmless read
 		names := []string{}
-		for n := range c.db.Hosts[0].Objs {
+		for n := range c.db.hostsFrom(c.at)[0].Objs {
 			names = append(names, n)
 		}
 		sort.Strings(names)
